@@ -442,6 +442,8 @@ func (w *world) runProgram(c *taskCtx, p *TaskProg) {
 // reference executes every program alone, one after the other, outside any simulation.
 func (w *world) reference() {
 	w.concurrent = false
+	simrt.SetBusy(true)
+	defer simrt.SetBusy(false)
 	for i := range w.sc.Tasks {
 		c := &taskCtx{id: i}
 		refCtx = c
@@ -455,7 +457,7 @@ func (w *world) reference() {
 func (w *world) onStep(s *simrt.Sim, released *simrt.Task) {
 	h := uint64(1469598103934665603)
 	var sum uint64
-	for _, t := range s.Tasks {
+	for _, t := range s.Live() {
 		sum += simrt.Mix(simrt.HashString(t.PendKind()), uint64(uint32(t.PendSite())))
 	}
 	h ^= sum
@@ -580,7 +582,8 @@ func profileKinds() {
 	}
 	simrt.EnableShared(true)
 	simrt.Profiling = true
-	defer func() { simrt.Profiling = false; simrt.EnableShared(false) }()
+	simrt.SetBusy(true)
+	defer func() { simrt.Profiling = false; simrt.EnableShared(false); simrt.SetBusy(false) }()
 	siteKinds := make([]int, len(simrt.Sites)) // how many kinds touch site i
 	var all []prof
 	total := 0
@@ -593,6 +596,7 @@ func profileKinds() {
 				w.exec(c, Op{K: k, N: n, S: 0x9e37 + rep, A: 64})
 			}
 			refCtx = nil
+			simrt.Progress()
 			p := prof{k: k}
 			for i := range simrt.SiteHits {
 				if simrt.SiteHits[i] != before[i] && shared(i) {
